@@ -383,6 +383,8 @@ pub struct Lane {
 
 #[derive(Default)]
 pub struct Gate {
+    /// incremented by every `gate_enable`; a thread parked under an older epoch is released
+    pub epoch: u64,
     pub stepped: bool,
     pub roles: u8,
     pub kinds: u16,
@@ -403,7 +405,10 @@ fn gate_lock() -> MutexGuard<'static, Option<Gate>> {
 /// Park threads of the given roles at calls of the given kinds until granted a permit.
 pub fn gate_enable(roles: u8, kinds: u16) {
     let mut g = gate_lock();
-    *g = Some(Gate { stepped: true, roles, kinds, lanes: HashMap::new() });
+    let epoch = g.as_ref().map(|x| x.epoch).unwrap_or(0) + 1;
+    *g = Some(Gate { epoch, stepped: true, roles, kinds, lanes: HashMap::new() });
+    drop(g);
+    GATE_CV.notify_all();
     GATE_ON.store(true, Ordering::SeqCst);
 }
 
@@ -424,11 +429,13 @@ pub fn gate_arrive(role: Role, kind: Sk, path: PathId) {
     }
     let tid = current_tid();
     let mut g = gate_lock();
+    let my_epoch;
     {
         let Some(gt) = g.as_mut() else { return };
         if !gt.stepped || gt.roles & role.bit() == 0 || gt.kinds & kind.bit() == 0 {
             return;
         }
+        my_epoch = gt.epoch;
         let lane = gt.lanes.entry(tid).or_default();
         lane.role = role as u8;
         lane.arrivals += 1;
@@ -444,7 +451,11 @@ pub fn gate_arrive(role: Role, kind: Sk, path: PathId) {
                 }
                 break;
             }
-            let lane = gt.lanes.get_mut(&tid).unwrap();
+            if gt.epoch != my_epoch {
+                // a thread left over from an earlier run: let it go
+                break;
+            }
+            let Some(lane) = gt.lanes.get_mut(&tid) else { break };
             if lane.permits > 0 {
                 lane.permits -= 1;
                 lane.waiting = None;
